@@ -9,7 +9,7 @@ Mirrors, as the code is:
     which guard and passed in which POSITION of which functor's data tuple, for the three reference
     phases and for phase-locked chemicals;  `Functor.from_args` (= `dict(zip(params, data))`);
   * `PhaseTPHandle.__call__` (dispatch on the phase; `force_gas_critical_phase` is False by default);
-  * `_init_data`: `Sfus = None if Hfus is None or Tm is None else Hfus / Tm` on the CONSTRUCTOR arguments;
+  * `_init_data`: `Sfus = Hfus / Tm if (Tm and Hfus is not None) else None` on the stored values;
   * `IdealTPMixtureModel`, `IdealTMixtureModel`, `IdealEntropyModel` (thermosteam/mixture/ideal_mixture_model.py),
     `Mixture.S` (empty stream → 0), `Mixture.xH/xS/xCn`.
 A Python `None` is `Option.none`; arithmetic on `None` raises `TypeError`, which is `Err.typeError`.
@@ -75,6 +75,20 @@ variable {α : Type} [Add α] [Sub α] [Mul α] [Div α] [Neg α]
 def truthy (E : Env α) : Option α → Bool
   | some v => !E.isZero v
   | none => false
+
+/-- `Chemical._set_phase_ref` when no reference phase is given: the phase at `T_ref`
+(`if Tm and T_ref <= Tm: 's' elif Tb and T_ref >= Tb: 'g' else: 'l'`) -/
+def defaultPhaseRef (E : Env α) (T_ref : α) (Tm Tb : Option α) : Phase :=
+  match (if truthy E Tm then Tm else none) with
+  | some tm =>
+    if E.le T_ref tm then .s else
+      match (if truthy E Tb then Tb else none) with
+      | some tb => if E.le tb T_ref then .g else .l
+      | none => .l
+  | none =>
+    match (if truthy E Tb then Tb else none) with
+    | some tb => if E.le tb T_ref then .g else .l
+    | none => .l
 
 /-- `Cn.T_dependent_property_integral(a, b)` with possibly-`None` bounds, under guard `c` (else `None`) -/
 def guardedInt (c : Bool) (f : α → α → α) (a b : Option α) : Option α :=
@@ -190,12 +204,10 @@ def Energies.S (E : Env α) (w : Energies α) (ph : Phase) (T P : α) : Except E
   | .locked _ s => s.eval E T P
   | .handles _ _ _ ss sl sg => (match ph with | .s => ss | .l => sl | .g => sg).eval E T P
 
-/-- `_init_data`: the entropy of fusion is computed from the CONSTRUCTOR arguments `Hfus`, `Tm`
-(both `None` for a chemical that takes them from the database). -/
-def sfusOfCtor (HfusArg TmArg : Option α) : Option α :=
-  match HfusArg, TmArg with
-  | some h, some t => some (h / t)
-  | _, _ => none
+/-- `_init_data` (after fix 7c3427a): `Sfus = Hfus / Tm if (Tm and Hfus is not None) else None`, on the STORED
+values (`self._Hfus`, `self._Tm`: constructor argument or database value). -/
+def initSfus (E : Env α) (Hfus Tm : Option α) : Option α :=
+  if truthy E Tm then Hfus.bind fun h => Tm.bind fun t => some (h / t) else none
 
 /-! ### Mixture models -/
 
